@@ -3,7 +3,7 @@
 From Coq Require Extraction.
 From Coq Require Import ExtrOcamlBasic.
 From Spg.Base Require Import Prelude Utf8 Bytes.
-From Spg.Model Require Import Tables Rand GenM CharSets CharGen Token WordList WordGen Api.
+From Spg.Model Require Import Tables Rand GenM CharSets CharGen Token WordList WordGen Api Diag.
 
 Definition run_draw (n : N) (src : source) : outcome N * N :=
   run_src (Pick n (fun i => Ret (Done i))) src.
@@ -49,4 +49,5 @@ Extraction "model.ml"
   mkCR mkBudget Z.of_N roundtrip_report tokenize Tok
   run_wlgen run_new_word_list wl_generate_diag cap_of_string mkWLR mkWL
   run_history mkCO OChar OWL SetChar SetWL Generate Entropy Alphabet SuccessProb
+  render_stream Stdout Log
   SFNone SFDigits1 SFDigits2 SFDigitsNoAmbiguous1 SFDigitsNoAmbiguous2 SFSymbols SFDigitsSymbols.
